@@ -9,6 +9,7 @@ import Driver.C19
 import Driver.C18
 import Driver.Pipeline
 import Driver.Data
+import Driver.C01
 open Lean
 
 def dispatch (prop : String) (input : Json) : Except String Json :=
@@ -22,6 +23,8 @@ def dispatch (prop : String) (input : Json) : Except String Json :=
   | "C19" => Driver.C19.handle input
   | "C18" => Driver.C18.handle input
   | "C14" => Driver.Data.handle input
+  | "C01" => Driver.C01.handle input
+  | "C02" => Driver.C01.handle input
   | "C13" => Driver.Data.handle input
   | "C06" => Driver.Pipeline.handle input
   | "C09" => Driver.Pipeline.handle input
